@@ -10,6 +10,7 @@ import (
 	"reflect"
 	"regexp"
 	"sort"
+	"strconv"
 	"strings"
 	"testing"
 	"time"
@@ -104,20 +105,40 @@ func run(p *asm.Plan, root map[string]any) (out outcome) {
 	return
 }
 
-// render is canon.String(v, canon.Typed) with a depth limit: a plan can store the root
-// inside itself.
+// render is canon.String(v, canon.Typed) for values that may contain themselves (a plan can
+// store the root inside itself): a container met again on the way down is written as <cycle>.
+// (A depth limit alone is not enough: four references to the root in the root make 4^depth
+// copies to write - found by the thorough tier as a case that did not return in 30 s.)
 func render(v any, depth int) string {
+	return renderOn(v, depth, map[uintptr]bool{})
+}
+
+func renderOn(v any, depth int, onPath map[uintptr]bool) string {
 	if depth > 12 {
 		return "<deep>"
 	}
 	switch tv := v.(type) {
 	case []any:
+		if len(tv) > 0 {
+			p := reflect.ValueOf(tv).Pointer()
+			if onPath[p] {
+				return "<cycle>"
+			}
+			onPath[p] = true
+			defer delete(onPath, p)
+		}
 		parts := make([]string, len(tv))
 		for i, e := range tv {
-			parts[i] = render(e, depth+1)
+			parts[i] = renderOn(e, depth+1, onPath)
 		}
 		return "[" + strings.Join(parts, ",") + "]"
 	case map[string]any:
+		p := reflect.ValueOf(tv).Pointer()
+		if onPath[p] {
+			return "<cycle>"
+		}
+		onPath[p] = true
+		defer delete(onPath, p)
 		keys := make([]string, 0, len(tv))
 		for k := range tv {
 			keys = append(keys, k)
@@ -125,7 +146,7 @@ func render(v any, depth int) string {
 		sort.Strings(keys)
 		parts := make([]string, len(keys))
 		for i, k := range keys {
-			parts[i] = fmt.Sprintf("%q:%s", k, render(tv[k], depth+1))
+			parts[i] = strconv.Quote(k) + ":" + renderOn(tv[k], depth+1, onPath)
 		}
 		return "{" + strings.Join(parts, ",") + "}"
 	case float64:
